@@ -915,3 +915,33 @@ Section Count.
       + apply IH; exact H1.
   Qed.
 End Count.
+
+(* ---- reading a buffer known to start with r ++ [b] ---- *)
+Lemma buf_split (buf r : list N) b : firstn (length r) buf = r -> nth_error buf (length r) = Some b ->
+  buf = r ++ b :: skipn (S (length r)) buf.
+Proof.
+  intros H1 H2. rewrite <- (firstn_skipn (length r) buf) at 1. rewrite H1. f_equal.
+  apply (skipn_S_nth buf (length r) b H2).
+Qed.
+
+Lemma rd_app_l (r x : list N) i : (i < length r)%nat -> rd (r ++ x) (N.of_nat i) = Ok (nth i r 0).
+Proof.
+  intros H. apply rd_ok. rewrite nth_error_app1 by exact H. apply nth_error_nth'. exact H.
+Qed.
+
+Lemma rd_app_mid (r : list N) b t : rd (r ++ b :: t) (N.of_nat (length r)) = Ok b.
+Proof. apply rd_ok. rewrite nth_error_app2 by lia. rewrite Nat.sub_diag. reflexivity. Qed.
+
+Lemma forall_nth (r : list N) i : bytes_lt256 r -> (i < length r)%nat -> nth i r 0 < 256.
+Proof. intros H Hi. unfold bytes_lt256 in H. rewrite Forall_forall in H. apply H. apply nth_In. exact Hi. Qed.
+
+
+(* data-only histories of the SPEC are chunk feeds *)
+Lemma spec_run_data J mc cl cap : forall chunks off r,
+  concat (spec_run J mc cl (mkSp (Some cap) off r) (map OpData chunks)) = fst (feed_all (J cap) (off, r) chunks).
+Proof.
+  induction chunks as [|ch rest IH]; intros off r; [reflexivity|].
+  cbn [map spec_run spec_op sp_cap sp_off sp_res feed_all concat].
+  destruct (feed (J cap) (off, r) ch) as [fs [o' r']]. cbn [fst snd].
+  cbn [concat]. rewrite IH. destruct (feed_all (J cap) (o', r') rest) as [fs2 st2]. reflexivity.
+Qed.
